@@ -873,6 +873,24 @@ func c12HashCmp(a *c12Agg, x *c12X, what, hashFn, root, field string, cfg *bool)
 	eq, why := x.need("bytes.Equal", 0, func(e *an.Ev) bool {
 		return len(e.Args) == 2 && ((x.at(e.Args[0], root+field) && x.sliceOf(e.Args[1], hv)) || (x.at(e.Args[1], root+field) && x.sliceOf(e.Args[0], hv)))
 	})
+	if eq == nil {
+		// the recomputed hash *is* compared (and the comparison passed) with a value whose origin the path does not
+		// reveal (read back from a local table / merged variable): not positive evidence of a missing comparison
+		for _, e := range x.calls("bytes.Equal") {
+			if len(e.Args) != 2 {
+				continue
+			}
+			if ok, _ := x.passed(e, 0); !ok {
+				continue
+			}
+			for i := 0; i < 2; i++ {
+				if l := x.loc(e.Args[1-i]); x.sliceOf(e.Args[i], hv) && !x.sliceOf(e.Args[1-i], hv) && (l == nil || l.Param == nil) {
+					a.unsure(name+" compare "+what, c12EvPos(e, x.pos()), "the recomputed "+what+" is compared with a value the path exploration cannot trace back to the stored "+field)
+					return
+				}
+			}
+		}
+	}
 	a.check(name+" compare "+what, c12EvPos(eq, x.pos()), eq != nil, "comparison of the stored "+field+" with the recomputed "+what+": "+why)
 }
 
